@@ -624,7 +624,7 @@ theorem loopPc_not_at_of_mu_none {s : Sys} (h : SysInv s) (hmu : s.mu = none) (k
     s.loopPc k ≠ some (.atSignal w) := by
   intro hk; have := h.loopAt k w hk; simp [hmu] at this
 
-theorem inv_step {s s' : Sys} {a : Action} (h : SysInv s) (hs : step s a = some s') : SysInv s' := by
+theorem inv_step {s s' : Sys} {a : Action} (h : SysInv s) (hg : s.guarded = true) (hs : step s a = some s') : SysInv s' := by
   cases a with
   | invoke kd =>
     simp only [step, Option.some.injEq] at hs; subst hs; exact inv_invoke h kd
@@ -647,7 +647,20 @@ theorem inv_step {s s' : Sys} {a : Action} (h : SysInv s) (hs : step s a = some 
     · split at hs
       · cases hs
       · rename_i hmu
-        cases hs; exact inv_setCall_done h (mu_none_of_not_isSome hmu) i _
+        split at hs
+        · -- the underlying transport is never asked: the read loop of the open incarnation has not returned
+          rename_i hcond
+          exfalso
+          simp only [hg, if_true, Bool.and_eq_true, decide_eq_true_eq] at hcond
+          obtain ⟨ho, hd⟩ := hcond
+          obtain ⟨ic, hic, _⟩ := h.openInc ho
+          exact h.loopDone s.cur hd ⟨ho, cur_lt_of_some hic⟩
+        · cases hs; exact inv_setCall_done h (mu_none_of_not_isSome hmu) i _
+    · rename_i hc
+      exfalso
+      have h1 := h.callAt i _ hc rfl
+      have h2 := h.muCall i h1
+      rw [hc] at h2; cases h2
     · rename_i hc
       split at hs
       · cases hs
@@ -720,15 +733,48 @@ theorem inv_step {s s' : Sys} {a : Action} (h : SysInv s) (hs : step s a = some 
     · rename_i c rest hm; cases hs; exact inv_monRecv h c rest hm
     · cases hs
 
-theorem inv_run {s s' : Sys} (h : SysInv s) (as : List Action) (hr : run s as = some s') : SysInv s' := by
+@[simp] theorem setCall_guarded (s : Sys) (i : Nat) (pc : CPc) : (setCall s i pc).guarded = s.guarded := rfl
+@[simp] theorem setLoop_guarded (s : Sys) (k : Nat) (pc : LPc) : (setLoop s k pc).guarded = s.guarded := rfl
+@[simp] theorem setSig_guarded (s : Sys) (k n : Nat) : (s.setSig k n).guarded = s.guarded := by
+  unfold Sys.setSig; split <;> rfl
+@[simp] theorem notifyMon_guarded (s : Sys) (c : Cause) : (notifyMon s c).guarded = s.guarded := by
+  unfold notifyMon; cases s.mon <;> simp only []; split <;> rfl
+@[simp] theorem doClose_guarded (s : Sys) (w : Closer) : (doClose s w).guarded = s.guarded := by
+  unfold doClose; simp
+
+/-- `guarded` (which IsOpen the code has) is a constant of a run -/
+theorem step_guarded {s s' : Sys} {a : Action} (hs : step s a = some s') : s'.guarded = s.guarded := by
+  cases a with
+  | invoke kd => simp only [step, Option.some.injEq] at hs; subst hs; rfl
+  | callStep i openOk =>
+    simp only [step] at hs
+    split at hs <;> (try split at hs) <;> (try split at hs) <;> (try split at hs) <;>
+    first | (cases hs; done) | (cases hs; simp; done)
+  | read k ev =>
+    simp only [step] at hs
+    split at hs
+    · cases ev <;> simp only [Option.some.injEq] at hs <;> subst hs <;> simp
+    · cases hs
+  | loopStep k =>
+    simp only [step] at hs
+    split at hs <;> (try split at hs) <;> (try split at hs) <;>
+    first | (cases hs; done) | (cases hs; simp; done)
+  | setMonitor => simp only [step] at hs; split at hs <;> cases hs; rfl
+  | monRecv => simp only [step] at hs; split at hs <;> cases hs; rfl
+
+theorem inv_run {s s' : Sys} (h : SysInv s) (hg : s.guarded = true) (as : List Action) (hr : run s as = some s') :
+    SysInv s' ∧ s'.guarded = true := by
   induction as generalizing s with
-  | nil => simp [run] at hr; subst hr; exact h
+  | nil => simp [run] at hr; subst hr; exact ⟨h, hg⟩
   | cons a t ih =>
     simp only [run] at hr
     cases hst : step s a with
     | none => simp [hst] at hr
-    | some s1 => simp [hst] at hr; exact ih (inv_step h hst) hr
+    | some s1 => simp [hst] at hr; exact ih (inv_step h hg hst) (by rw [step_guarded hst]; exact hg) hr
 
 theorem inv_reachable {s : Sys} (h : Reachable s) : SysInv s := by
-  obtain ⟨as, hr⟩ := h; exact inv_run inv_init as hr
+  obtain ⟨as, hr⟩ := h; exact (inv_run inv_init rfl as hr).1
+
+theorem guarded_reachable {s : Sys} (h : Reachable s) : s.guarded = true := by
+  obtain ⟨as, hr⟩ := h; exact (inv_run inv_init rfl as hr).2
 end FV.Adapter
